@@ -250,4 +250,59 @@ func runC09(c *h.Ctx) {
 	}
 	run("history:exhaustive-short", hist)
 	run("history:random-long", rhist)
+	// two attesters with separate caches in one process: what one verified and bound is unknown to the other
+	{
+		cl := w.clients[0]
+		c1, c2 := newRecCache(), newRecCache()
+		a1, a2 := type3.NewRateLimitedAttester(c1), type3.NewRateLimitedAttester(c2)
+		e1 := a1.VerifyRequest(*cl.req[0], cl.blind[0], cl.key, w.anons[0])
+		_, f2 := a2.FinalizeIndex(cl.key, cl.blind[0], cl.brk[0], w.anons[0])
+		_, f1 := a1.FinalizeIndex(cl.key, cl.blind[0], cl.brk[0], w.anons[0])
+		c.Count("two-attesters", 3, "")
+		if e1 != nil || f1 != nil {
+			c.Violation("an honest verify + finalize at one attester fails", nil)
+		}
+		if f2 == nil || len(c2.m) != 0 {
+			c.Violation("an attester refuses every client for which IT has not verified a request (another attester in the process verified it)", map[string]any{"second_attester_cache_entries": len(c2.m)})
+		}
+		// bound at attester 1 to anon 0; attester 2 (after its own verification) is free to bind anon 1
+		e2 := a2.VerifyRequest(*cl.req[0], cl.blind[0], cl.key, w.anons[1])
+		_, g2 := a2.FinalizeIndex(cl.key, cl.blind[0], cl.brk[0], w.anons[1])
+		_, g1 := a1.FinalizeIndex(cl.key, cl.blind[0], cl.brk[0], w.anons[1])
+		if e2 != nil || g2 != nil {
+			c.Violation("a pair whose issuer origin ID is unbound at THIS attester is rejected (bound only at another attester)", nil)
+		}
+		if g1 == nil {
+			c.Violation("two different anonymous origin IDs accepted for one issuer origin ID of one client", map[string]any{"history": "two attesters"})
+		}
+	}
+	// one very long history of one client: a binding survives thousands of refused and accepted calls with fresh IDs
+	{
+		cl := w.clients[1]
+		cache := newRecCache()
+		att := type3.NewRateLimitedAttester(cache)
+		n := 1500
+		if c.Thorough() {
+			n = 70000
+		}
+		att.VerifyRequest(*cl.req[0], cl.blind[0], cl.key, w.anons[0])
+		_, e0 := att.FinalizeIndex(cl.key, cl.blind[0], cl.brk[0], w.anons[0])
+		bad := 0
+		for i := 0; i < n && bad < 3; i++ {
+			fresh := sha256Bytes(h.U64(uint64(i)))
+			// origin 0 is bound to anon 0: every fresh ID must be refused; origin 2 (other index key) takes its first
+			// fresh ID and must refuse all later ones
+			_, e := att.FinalizeIndex(cl.key, cl.blind[0], cl.brk[0], fresh)
+			_, e2 := att.FinalizeIndex(cl.key, cl.blind[2], cl.brk[2], fresh)
+			if e == nil || (i == 0) != (e2 == nil) {
+				bad++
+				c.Violation("a binding stays in force over a long history of requests with fresh anonymous origin IDs", map[string]any{"step": i, "origin0_accepted": e == nil, "origin2_accepted": e2 == nil})
+			}
+		}
+		_, eAgain := att.FinalizeIndex(cl.key, cl.blind[0], cl.brk[0], w.anons[0])
+		c.Count("history:very-long", 2*n+2, "")
+		if e0 != nil || eAgain != nil {
+			c.Violation("a repeat of an accepted pair is rejected after a long history", nil)
+		}
+	}
 }
